@@ -23,7 +23,7 @@ def run(ctx, replay=None):
     sc.mc_step(ctx, 'local33', 'Shapes33', 1 if ctx.quick else 2, 'FullAlpha', 'FullHeld' if ctx.quick else 'SmallHeld', ['all2'], sc.MC_STEP_INVARIANTS['C09'])
     if not ctx.quick:
         sc.mc_step(ctx, 'full22', 'Shapes22', None, 'SmallAlpha', 'SmallHeld', ['all', 'all2'], sc.MC_STEP_INVARIANTS['C09'])
-    comps_cell = ['only_pickndrop', 'all'] if ctx.quick else ['only_pickndrop', 'only_box', 'only_obstacles', 'keydoor', 'obstacles', 'all', 'all2', 'nested', 'unshaped']
+    comps_cell = ['only_pickndrop', 'all'] if ctx.quick else ['only_pickndrop', 'only_box', 'only_obstacles', 'keydoor', 'all', 'all2', 'nested']
     for cname in comps_cell:
         for (h, w) in [(1, 2), (2, 1), (1, 1)]:
             sc.run_step_part(ctx, f'cell{h}x{w}_{cname}', sc.cell_jobs(h, w),
@@ -56,16 +56,16 @@ def run(ctx, replay=None):
                         gfam.append({'grid': grid, 'pos': [pos // w, pos % w], 'ori': ori, 'item': held})
     space = dict(steps.family_space(0, 0))
     space['types'] = list(space['types']) + ['Gem']
-    for cname in (['only_pickndrop', 'all'] if ctx.quick else ['only_pickndrop', 'all', 'all2', 'nested', 'keydoor']):
+    for cname in (['only_pickndrop', 'all'] if ctx.quick else ['only_pickndrop', 'all', 'nested']):
         jobs = [dict(rec_id=i, st_json=s_, space=dict(space, shape=[len(s_['grid']), len(s_['grid'][0])])) for i, s_ in enumerate(gfam)]
         sc.run_step_part(ctx, f'holdables_{cname}', jobs, dict(comps=steps.COMPOSITIONS[cname], via='direct'), PREFIX)
     ctx.add_part('holdable family (custom holdable object Gem next to Key)', size=len(gfam))
-    sc.random_big_part(ctx, PREFIX, 300 if ctx.quick else 20000, seed_offset=2)
+    sc.random_big_part(ctx, PREFIX, 300 if ctx.quick else 6000, seed_offset=2)
     sc.live_chain_part(ctx, PREFIX, 150 if ctx.quick else 1500, seed_offset=2)
     sc.mc_reach(ctx, ['InvInventory', 'InvDoorsStayDoors'])
     sc.apalache_lemmas(ctx, ['LocalityLemma', 'ExchangeLemma', 'HeldLemma'], modules=('MC_GVSym_5x5',) if ctx.quick else ('MC_GVSym_5x5', 'MC_GVSym_7x9'))
     sc.history_part(ctx, PREFIX, ['gv_keydoor.5x5.yaml', 'gv_keydoor.7x7.yaml', 'gv_dynamic_obstacles.5x5.yaml', 'gv_dynamic_obstacles.7x7.yaml'] if ctx.quick else [os.path.basename(x) for x in __import__('harness.config', fromlist=['x']).shipped_files()],
-                    400 if ctx.quick else 5000, range(2) if ctx.quick else range(6))
+                    400 if ctx.quick else 2000, range(2) if ctx.quick else range(4))
     ctx.cov['exhaustive'] = True
 
 
